@@ -6,6 +6,8 @@ mod c11;
 mod c15;
 mod c16;
 mod cbackend;
+mod cfront;
+mod srcgen;
 mod ctx_compile;
 mod tirgen;
 mod gal;
@@ -125,6 +127,44 @@ fn main() {
         ("run", "C08") => cbackend::run(&mut ctx, cbackend::Focus::C08),
         ("run", "C10") => cbackend::run(&mut ctx, cbackend::Focus::C10),
         ("run", "C14") => cbackend::run(&mut ctx, cbackend::Focus::C14),
+        ("run", "C13") => cfront::run(&mut ctx, cfront::Focus::C13),
+        ("run", "C17") => cfront::run(&mut ctx, cfront::Focus::C17),
+        ("run", "C18") => cfront::run(&mut ctx, cfront::Focus::C18),
+        ("lowerbytes", path) => {
+            cfront::lowerbytes_cmd(path, &args[3]);
+            return;
+        }
+        ("lower", path) => {
+            // debugging aid: parse, analyse and lower every tx of a source file
+            let src = std::fs::read_to_string(path).unwrap();
+            let r = std::panic::catch_unwind(|| {
+                let mut program = match tx3_lang::parsing::parse_string(&src) {
+                    Ok(p) => p,
+                    Err(e) => {
+                        println!("parse error: {:?}", e);
+                        return;
+                    }
+                };
+                let report = tx3_lang::analyzing::analyze(&mut program);
+                println!("analysis errors: {}", report.errors.len());
+                for e in &report.errors {
+                    println!("  {}", e);
+                }
+                let names: Vec<String> = program.txs.iter().map(|t| t.name.value.clone()).collect();
+                for n in names {
+                    let r = std::panic::catch_unwind(std::panic::AssertUnwindSafe(|| tx3_lang::lowering::lower(&program, &n)));
+                    match r {
+                        Ok(Ok(t)) => println!("tx {}: Ok\n{}", n, tirgen::tx_gal(&t)),
+                        Ok(Err(e)) => println!("tx {}: Err {}", n, e),
+                        Err(_) => println!("tx {}: PANIC {}", n, last_panic()),
+                    }
+                }
+            });
+            if r.is_err() {
+                println!("PANIC {}", last_panic());
+            }
+            return;
+        }
         ("extract", _) => {
             // translators: none registered yet
             return;
